@@ -937,3 +937,45 @@ package kafka
 //@   loop 0 invariant err == nil
 //@   loop 0 invariant size == 6 * (int(arrSize) - i)
 //@   loop 0 invariant (&c.rbuf).$rpos + size == c.$frameEnd
+
+//@ property C04 C05
+
+// ---- legacy request encoder (write.go): the size a frame announces equals the bytes written after the size field ----
+// wb.$wn counts the bytes handed to the underlying writer. Every primitive advances it by the width the size arithmetic
+// (sizeof*/varIntLen/recordSize) charges for it.
+//@ spec varlenU(u uint64) int
+//@   macro
+//@   def ite(u < 0x80, 1, ite(u < 0x4000, 2, ite(u < 0x200000, 3, ite(u < 0x10000000, 4, ite(u < 0x800000000, 5, ite(u < 0x40000000000, 6, ite(u < 0x2000000000000, 7, ite(u < 0x100000000000000, 8, ite(u < 0x8000000000000000, 9, 10)))))))))
+
+//@ func (*writeBuffer).Write
+//@   trusted hands b to the underlying (buffered) writer; short writes and errors are sticky in that writer and surface at Flush
+//@   modifies wb.$wn
+//@   ensures wb.$wn == old(wb.$wn) + len(b)
+//@ func (*writeBuffer).WriteString
+//@   trusted hands s to the underlying (buffered) writer
+//@   modifies wb.$wn
+//@   ensures wb.$wn == old(wb.$wn) + len(s)
+//@ func (*writeBuffer).Flush
+//@   trusted flushes the underlying writer
+//@ func (*writeBuffer).writeInt8
+//@   modifies wb.$wn, wb.b
+//@   ensures wb.$wn == old(wb.$wn) + 1
+//@ func (*writeBuffer).writeInt16
+//@   modifies wb.$wn, wb.b
+//@   ensures wb.$wn == old(wb.$wn) + 2
+//@ func (*writeBuffer).writeInt32
+//@   modifies wb.$wn, wb.b
+//@   ensures wb.$wn == old(wb.$wn) + 4
+//@ func (*writeBuffer).writeInt64
+//@   modifies wb.$wn, wb.b
+//@   ensures wb.$wn == old(wb.$wn) + 8
+//@ func varIntLen
+//@   mode bv
+//@   pure
+//@   ensures result == varlenU(uint64((i << 1) ^ (i >> 63)))
+//@   loop 0 unroll 10
+//@ func (*writeBuffer).writeVarInt
+//@   mode bv
+//@   modifies wb.$wn, wb.b
+//@   ensures wb.$wn == old(wb.$wn) + varIntLen(i)
+//@   loop 0 unroll 10
